@@ -46,6 +46,7 @@ Lemma deposit_spec u z sent st st' : deposit u z sent st = Ok st' ->
                  (get (upd (lp st) VAULT (get (lp st) VAULT + locked)) u + share)).
 Proof.
   unfold deposit. intros H.
+  bind_as H uu0 EFUNDS.
   bind_inv H. apply ensure_ok' in E.
   bind_inv H. apply ensure_ok' in E0. apply Z.eqb_eq in E0.
   bind_inv H. apply ensure_ok' in E1. apply Z.eqb_eq in E1.
